@@ -71,7 +71,7 @@ def probe_classes():
             RUN.live[oid] = self
 
         @rpc_method
-        def hit(self, c, via, seq, spin=0):
+        def hit(self, c, via, seq, spin=0, blob=b""):
             me = _me()
             _log("enter", me, self._oid, c, via, seq)
             self._inside += 1          # every line below is a yield point (trace_funcs)
@@ -528,7 +528,54 @@ NONBLOCKING = ("n", "k", "gn", "sn")
 
 def op_via(cal, op) -> int:
     """the context whose proxy the caller uses for this op (default: the caller's own context)"""
-    return op[2] if len(op) > 2 else cal["ctx"]
+    return op[2] if len(op) > 2 and op[2] is not None else cal["ctx"]
+
+
+def op_size(op) -> int:
+    """target size in bytes of the serialised request frame of a `hit` call (0 = tiny call, no payload)"""
+    return op[3] if len(op) > 3 else 0
+
+
+_SIZES = None
+PAYLOAD_CAP = 1_200_000      # frames above this are not generated (a 10 MB frame costs seconds in the simulated network)
+FIXED_LARGE = (70_000, 300_000, 1_000_000)
+
+
+def size_constants():
+    """Every size-like integer the messaging / RPC code distinguishes, read from the current source on each run:
+    integer literals >= 256 anywhere in qmi/core/messaging.py and qmi/core/rpc.py, and integer class / module attributes
+    >= 256 of the imported modules (covers constants written as expressions).  Enumerated, not named."""
+    global _SIZES
+    if _SIZES is not None:
+        return _SIZES
+    import ast
+    import importlib
+    from harness import core
+    found = set()
+    for rel in ("qmi/core/messaging.py", "qmi/core/rpc.py"):
+        tree = ast.parse((core.REPO / rel).read_text())
+        found |= {n.value for n in ast.walk(tree) if isinstance(n, ast.Constant) and type(n.value) is int and n.value >= 256}
+        mod = importlib.import_module(rel[:-3].replace("/", "."))
+        for name, obj in vars(mod).items():
+            if type(obj) is int and obj >= 256:
+                found.add(obj)
+            if isinstance(obj, type) and obj.__module__ == mod.__name__:
+                for a, v in vars(obj).items():
+                    if type(v) is int and v >= 256:
+                        found.add(v)
+    _SIZES = sorted(found)
+    return _SIZES
+
+
+def frame_size_targets():
+    """frame sizes around every size constant (c-1, c, c+1, 2c), between consecutive constants, and a few fixed large ones"""
+    cs = size_constants()
+    t = set(FIXED_LARGE)
+    for c in cs:
+        t |= {c - 1, c, c + 1, 2 * c}
+    for a, b in zip(cs, cs[1:]):
+        t.add((a + b) // 2)
+    return sorted(x for x in t if 600 <= x <= PAYLOAD_CAP)
 
 
 def gen_scenario(rng, big: bool = False) -> dict:
@@ -607,6 +654,20 @@ def gen_scenario(rng, big: bool = False) -> dict:
             else:
                 prog.append(mk("b", o))
         prog = prog[:12]
+        if K > 1 and rng.random() < 0.07:
+            # payloads of the size classes the code distinguishes, mixed with tiny calls, in one thread's issue order,
+            # preferably over a remote route
+            targets = frame_size_targets()
+            o = pick_obj()
+            vias = [v for v in range(K) if v != homes[o]]
+            via = rng.choice(vias) if vias and rng.random() < 0.85 else k
+            small = [x for x in targets if x <= 150_000] or targets
+            sized = []
+            for _ in range(rng.randint(1, 3)):
+                sized.append([rng.choice(["n", "n", "b"]), o, via, rng.choice(small if rng.random() < 0.8 else targets)])
+                for _ in range(rng.randint(1, 2)):
+                    sized.append([rng.choice(["n", "n", "gn", "q", "b"]), o, via])
+            prog = sized + prog[:4]
         callers.append({"ctx": k, "prog": prog, "acq": rng.choice(["desc", "desc", "made", "byname"])})
     removals = []
     if rng.random() < 0.25:
@@ -740,6 +801,30 @@ def make_body(scn):
                     return list(r) == []
                 return True
 
+            def blob_for(p, k, o, seq, spin, target):
+                """payload such that the serialised request frame is `target` bytes long (remote route), else `target` bytes"""
+                if target <= 0:
+                    return b""
+                if k == homes[o]:
+                    return bytes(target)
+                import pickle
+                from qmi.core.messaging import QMI_MessageHandlerAddress as Addr
+                nr = ctxs[k]._unique_counters.get("$future_", 0) + 1
+
+                def frame(n):
+                    m = R.QMI_MethodRpcRequestMessage(Addr(ctxs[k].name, f"$future_{nr}"),
+                                                      Addr(f"c{homes[o]}", f"{PROBE_PREFIX}{o}"), "hit",
+                                                      (ci, k, seq, spin, bytes(n)), {}, getattr(p, "_lock_token", None))
+                    return len(pickle.dumps(m))
+                n = max(0, target - frame(0))
+                for _ in range(4):
+                    d = target - frame(n)
+                    if d == 0:
+                        break
+                    n = max(0, n + d)
+                _log("frame", ci, k, o, seq, target, frame(n))
+                return bytes(n)
+
             def run():
                 me = _rt.get_ident()
                 nxt = collections.Counter()
@@ -787,7 +872,9 @@ def make_body(scn):
                     if kind in NONBLOCKING and hasattr(p, "rpc_nonblocking"):
                         try:
                             nb = p.rpc_nonblocking
-                            fut = (nb.hit(ci, k, seq) if kind == "n" else nb.hit(ci, k, seq, 40) if kind == "k"
+                            sz = op_size(op)
+                            fut = (nb.hit(ci, k, seq, 0, blob_for(p, k, o, seq, 0, sz)) if kind == "n"
+                                   else nb.hit(ci, k, seq, 40, blob_for(p, k, o, seq, 40, sz)) if kind == "k"
                                    else nb.get_name() if kind == "gn" else nb.get_signals())
                             futs.append([fut, (kind, k, o, seq), False])
                         except D.SchedAbort:
@@ -795,8 +882,10 @@ def make_body(scn):
                         except Exception as e:  # noqa
                             bad.append((kind, ci, k, o, seq, f"{type(e).__name__}: {e}"))
                         continue
-                    fn = {"b": lambda: p.hit(ci, k, seq), "n": lambda: p.hit(ci, k, seq), "k": lambda: p.hit(ci, k, seq, 40),
-                          "t": lambda: p.hit(ci, k, seq, rpc_timeout=0.001),
+                    sz = op_size(op)
+                    fn = {"b": lambda: p.hit(ci, k, seq, 0, blob_for(p, k, o, seq, 0, sz)),
+                          "n": lambda: p.hit(ci, k, seq), "k": lambda: p.hit(ci, k, seq, 40),
+                          "t": lambda: p.hit(ci, k, seq, 0, blob_for(p, k, o, seq, 0, sz), rpc_timeout=0.001),
                           "g": lambda: p.get_name(), "gn": lambda: p.get_name(), "s": lambda: p.get_signals(),
                           "sn": lambda: p.get_signals(), "q": lambda: p.is_locked(),
                           "L": lambda: p.lock(), "U": lambda: p.unlock(), "F": lambda: p.force_unlock(),
@@ -1184,6 +1273,8 @@ FIXED_SCENARIOS_RAW = [
      "callers": [{"ctx": 0, "acq": "desc", "prog": [["P", 0], ["n", 0], ["n", 0], ["P", 1], ["n", 1], ["b", 0], ["b", 1]]},
                  {"ctx": 0, "acq": "made", "prog": [["n", 1], ["E", 1], ["n", 1], ["n", 0], ["b", 1]]},
                  {"ctx": 1, "acq": "byname", "prog": [["n", 0], ["n", 1], ["b", 0]]}]},
+    # payloads of every size class the code distinguishes, followed by tiny calls of the same thread on the remote route
+    "SIZED",
     # inherited standard methods interleaved with the probe's own method
     {"contexts": 2, "objects": [0], "callers": [{"ctx": 0, "prog": [["n", 0], ["gn", 0], ["n", 0], ["g", 0]]},
                                                  {"ctx": 1, "prog": [["n", 0], ["sn", 0], ["gn", 0], ["s", 0]]},
@@ -1191,7 +1282,51 @@ FIXED_SCENARIOS_RAW = [
 ]
 
 
-FIXED_SCENARIOS = [sanitize(x) for x in FIXED_SCENARIOS_RAW]
+def sized_scenarios():
+    """fixed corpus built from the size constants of the current source: every target frame size once, each followed by
+    tiny calls of the same thread over the remote route; the three fixed large ones also with a second remote caller"""
+    out = []
+    targets = frame_size_targets()
+    for i in range(0, len(targets), 3):
+        prog = []
+        for t in targets[i:i + 3]:
+            prog += [["n", 0, 1, t], ["n", 0, 1], ["gn", 0, 1]]
+        prog.append(["b", 0, 1])
+        out.append({"contexts": 2, "objects": [0], "callers": [{"ctx": 1, "prog": prog}, {"ctx": 0, "prog": [["n", 0], ["b", 0]]}]})
+    for t in FIXED_LARGE:
+        out.append({"contexts": 3, "objects": [0], "callers": [
+            {"ctx": 1, "prog": [["n", 0, 1, t], ["n", 0, 1], ["q", 0, 1], ["n", 0, 1, 3000], ["b", 0, 1]]},
+            {"ctx": 2, "prog": [["n", 0, 2], ["b", 0, 2, t // 2], ["n", 0, 2]]}]})
+    return out
+
+
+def fixed_scenarios():
+    out = []
+    for x in FIXED_SCENARIOS_RAW:
+        out += sized_scenarios() if x == "SIZED" else [x]
+    return [sanitize(x) for x in out]
+
+
+class _Fixed:
+    """FIXED_SCENARIOS is built on first use (it reads the size constants of the code under test)"""
+    _v = None
+
+    def _get(self):
+        if _Fixed._v is None:
+            _Fixed._v = fixed_scenarios()
+        return _Fixed._v
+
+    def __iter__(self):
+        return iter(self._get())
+
+    def __len__(self):
+        return len(self._get())
+
+    def __getitem__(self, i):
+        return self._get()[i]
+
+
+FIXED_SCENARIOS = _Fixed()
 
 
 class C03(Prop):
@@ -1384,6 +1519,16 @@ class C03(Prop):
         res.count("requests_refused_already_stopped", sum(1 for e in events if e[0] == "push-refused"))
         res.count("requests_executed", sum(1 for e in events if e[0] == "exec-exit"))
         res.count("release_hooks_run", sum(1 for e in events if e[0] == "hook-exec"))
+        consts = size_constants()
+        for e in events:
+            if e[0] == "frame":
+                res.count("request_frames_with_payload")
+                res.count("request_frames_with_payload_exact_size", 1 if e[5] == e[6] else 0)
+                for c in consts:
+                    if e[6] in (c - 1, c, c + 1):
+                        res.count(f"request_frames_at_boundary_{c}")
+                if e[6] >= 65_000:
+                    res.count("request_frames_ge_65kB")
         busy, n_busy = collections.defaultdict(int), 0
         for e in events:
             if e[0] == "exec-enter" and e[2] != "?":
